@@ -62,6 +62,15 @@ LAST_JUDGE = {'unexplained': 0, 'accepted': 0}   # of the last judge() call: not
 DEV_OF = {'devAgg': 'aggLocal', 'devNoSeq': 'noSeq'}     # choice name -> member of the constant Dev
 
 
+def raised_sig(ev):
+    """(sig, what) if the step was an undecodable sync Interest that made an exception escape sync_handler"""
+    exc = ev.get('post', {}).get('raised')
+    if not exc:
+        return None
+    return ('C18/SvsInst/RecvSV/%s/raised:%s' % (ev['p']['k'], exc),
+            'an undecodable sync Interest (%s) is not ignored quietly: %s escapes sync_handler' % (ev['p']['k'], exc))
+
+
 def finding(ctx, sig, what, obj):
     """collect findings per signature, keeping the shortest history; flushed at the end of run()"""
     box = ctx.extra.setdefault('_findings', {})
@@ -232,6 +241,7 @@ class PairRun:
         self.recs = {'first': {'cfg': first_cfg, 'ev': []}, 'main': {'cfg': main_cfg, 'ev': []},
                      'peer': {'cfg': {'init': 0, 't0': svskit.QUIET_TIMER}, 'ev': []}}
         self.init_diff = None
+        self.raised = []               # (who, event number, sig, what)
         self.bg = []
         if first_cfg is not None:
             if live:
@@ -279,6 +289,9 @@ class PairRun:
         self.schedule.append([who, dict(ev)])
         ev['post'] = post
         self.recs[who]['ev'].append(ev)
+        rs = raised_sig(ev)
+        if rs:
+            self.raised.append((who, len(self.recs[who]['ev'])) + rs)
         if who == 'main' and self.peer is not None and post['out']:
             self.loop_back()
         return post
@@ -423,6 +436,11 @@ class Cover:
                 rec = dict(ev)
                 rec['post'] = obs
                 evs.append(rec)
+                rs = raised_sig(rec)
+                if rs:
+                    finding(ctx, rs[0], rs[1], {'kind': 'trace', 'nodes': self.nodes, 'sup': self.sup, 'sync': self.sync,
+                                                'rstep': 32768, 'at': len(evs),
+                                                'rec': {'cfg': {'init': st0['selfSeq'], 't0': st0['timer']}, 'ev': list(evs)}})
                 exact = [(s, k) for (s, k) in cands
                          if not diff(obs, proj_state(g.state[g.edges[s][k][2]], g.state[s]), C18_FIELDS + SYNC_FIELDS)]
                 if not exact:
@@ -714,6 +732,8 @@ def stage_c(ctx):
     for i in range(n):
         pr = record_random(ctx.rng, NODES5, ctx.rng.randint(90, 110), sup, sync, rstep, njit)
         n_init += bool(pr.report_init(ctx))
+        for who, at, sig, what in pr.raised:
+            finding(ctx, sig, what, pr.obj(who, at))
         for which in ('main', 'first'):
             recs.append(pr.recs[which])
             objs.append(lambda at, pr=pr, which=which: pr.obj(which, at))
@@ -801,6 +821,10 @@ def replay(ctx, path):
         sc.close()
     fnd = judge(ctx, [{'cfg': rec['cfg'], 'ev': evs}], obj['nodes'], obj['sup'], obj['sync'], obj['rstep'],
                 'c18-replay', report=False)
+    for n, e in enumerate(evs):
+        rs = raised_sig(e)
+        if rs:
+            fnd.append({'at': n + 1, 'sig': rs[0], 'what': rs[1]})
     for f in fnd:
         print('REPRODUCED at event %d: %s\n  %s' % (f['at'], f['sig'], f['what']))
     if not fnd:
@@ -823,7 +847,9 @@ def replay_pair(ctx, obj):
                                           json.dumps(post)))
     finally:
         pr.close()
-    found = 0
+    found = len(pr.raised)
+    for who, at, sig, what in pr.raised:
+        print('REPRODUCED in the execution of `%s` at event %d: %s\n  %s' % (who, at, sig, what))
     if pr.init_diff:
         print('REPRODUCED: C18/SvsInst/Init/%s\n  the fresh instance starts as %s' % ('+'.join(pr.init_diff[0]),
                                                                                    json.dumps(pr.init_diff[1])))
